@@ -243,6 +243,7 @@ pub fn run(seed: u64, ntraces: usize) {
                 else if d == 12 {   // outbound battery: payment shapes x destination routing, with gas
                     for sh in [9u64, 8, 0, 1, 2] { for ch in 0..5u64 { script.push(3000 + sh * 10 + ch); } }
                     for sh in [9u64, 8, 1] { for ch in 0..2u64 { script.push(3500 + sh * 10 + ch); } }
+                    script.extend([51u64, 3080, 3580, 52, 3081, 3581]);      // ethereum removed -> no transfer to it; then the hub removed -> none to a hub-routed chain
                 }
                 else if d == 14 {   // inbound deployment in two steps with the nominated minter calling the new manager directly in between
                     script.extend([193u64, 45, 194, 23, 194, 45]);
@@ -315,7 +316,7 @@ pub fn run(seed: u64, ntraces: usize) {
                     };
                     let known = g.toks.iter().find(|t| t.salt == salt && t.kind == "native");
                     let issuing = known.map(|t| t.token.is_none()).unwrap_or(false) && !g.pend.iter().any(|p| matches!(&p.kind, PKind::Issue(_, tm) if Some(tm) == known.map(|t| &t.tm)));
-                    let egld = if !scripted && r.chance(1, 8) { *r.pick(&[0u64, ISSUE_COST]) } else if issuing { ISSUE_COST } else { 0 };
+                    let egld = if !scripted && r.chance(1, 5) { *r.pick(&[0u64, ISSUE_COST, 2 * ISSUE_COST, ISSUE_COST + 1, ISSUE_COST - 1, ISSUE_COST + ISSUE_COST / 2]) } else if issuing { ISSUE_COST } else { 0 };
                     let name = if !scripted && r.chance(1, 10) { vec![] } else { b"MyToken".to_vec() };
                     let (ok, rets, dep) = g.its_tx("deployToken", &deployer, "deployInterchainToken", vec![salt.clone(), name.clone(), b"MTK".to_vec(), vec![18], big(supply), minter.clone()], egld, &[],
                         json!({"salt": hx(&salt), "name": hx(&name), "symbol": hx(b"MTK"), "decimals": 18, "supply": supply.to_string(), "minter": hx(&minter)}));
@@ -399,7 +400,7 @@ pub fn run(seed: u64, ntraces: usize) {
                     let reps = if fdeploy { 1 } else if a == 8 { 2 } else { 1 + r.below(2) };
                     g.last_in = Some((chain.clone(), id.clone(), src.clone(), payload_x.clone()));
                     for k in 0..reps {
-                        let egld = if a == 8 && k == 1 { ISSUE_COST } else { 0 };
+                        let egld = if a == 8 && k == 1 { if fvar.is_none() && r.chance(1, 4) { ISSUE_COST + ISSUE_COST / 2 } else { ISSUE_COST } } else { 0 };
                         let (ok, _, dep) = g.its_tx("execute", &g.relayer.clone(), "execute", vec![chain.clone(), id.clone(), src.clone(), payload_x.clone()], egld, &[],
                             json!({"chain": hx(&chain), "id": hx(&id), "src": hx(&src), "payload": hx(&payload_x), "ph": hx(&keccak(&payload_x)), "label": format!("in{}/v{}", a, variant)}));
                         if ok { if let Some(tm) = dep { if a == 8 { let tid3 = payload[32..64].to_vec(); g.toks.push(Tok { id: tid3, kind: "remote-native", tm, token: None, salt: vec![], deployer: g.relayer.clone(), supply: 0, minter: vec![], custody: 0 }); } } }
@@ -504,6 +505,10 @@ pub fn run(seed: u64, ntraces: usize) {
                     let caller = g.operator.clone(); let na = if a == 48 { g.users[1].clone() } else { g.users[2].clone() };
                     if a == 48 { let (ok, _, _) = g.its_tx("proposeOp", &caller, "proposeOperatorship", vec![na.to_vec()], 0, &[], json!({"a": hx(na.as_bytes())})); if ok { g.proposed = Some((caller.clone(), na.clone())); } }
                     else { let (ok, _, _) = g.its_tx("transferOp", &caller, "transferOperatorship", vec![na.to_vec()], 0, &[], json!({"a": hx(na.as_bytes())})); if ok { g.operator = na; } }
+                }
+                51 | 52 => { // directed: the owner removes the trusted address of ethereum (51) / of the hub chain (52)
+                    let chain = if a == 51 { b"ethereum".to_vec() } else { b"axelar".to_vec() }; let ow = g.owner.clone();
+                    g.its_tx("removeTrusted", &ow, "removeTrustedAddress", vec![chain.clone()], 0, &[], json!({"chain": hx(&chain)}));
                 }
                 50 => { // directed: deployment naming the HASH of the approved (non-32-byte) destination minter as destination minter: another combination, must be refused
                     let Some(tk) = g.toks.iter().rev().find(|t| t.kind == "native" && t.minter.len() == 32) else { continue; };
